@@ -93,7 +93,9 @@ def run(ctx):
             # shutdown() / stop() starting while submitters are inside enqueue / enqueueWithResult / tryEnqueue
             zt = 25 if not thorough else 300
             shut = ["Z %d 6 1 1 shutdown" % zt, "Z %d 6 1 1 stop" % zt, "Z %d 4 0 3 shutdown" % zt, "Z %d 8 2 2 stop" % zt]
-            lines += stress + race + backlog + shut
+            # a running pool whose queue never fills refuses nothing (refusal reasons: full / draining / shut down only)
+            never = ["N 6 %d" % (4000 if not thorough else 40000), "N 2 %d" % (4000 if not thorough else 40000)]
+            lines += stress + race + backlog + shut + never
             li, lm, _ = vlib.run_pair(ctx, impl_exe, model_exe, lines, "c09h", timeout=1800)
             nontrivial = 0
             disagree = 0
@@ -113,6 +115,13 @@ def run(ctx):
                     if ri != rm:
                         v.property_failure("destructor-returns-before-tasks-finished", "the pool was destroyed with queued tasks: %s "
                                            "(accepted tasks that had not run when the destructor returned / ran afterwards)" % ri, line, ri)
+                    else:
+                        nontrivial += 1
+                    continue
+                if line.startswith("N "):
+                    if ri != rm:
+                        v.property_failure("refused-without-reason", "a running pool with room in its queue refused submissions (or lost "
+                                           "accepted ones): %s - a submission may be refused only for a full queue, a drain or a shutdown" % ri, line, ri)
                     else:
                         nontrivial += 1
                     continue
